@@ -25,7 +25,7 @@ import (
 )
 
 var c02mix = []weighted{
-	{"pub", 34}, {"sleep", 16}, {"crash", 10}, {"restart", 12}, {"cut", 10}, {"heal", 8}, {"stall", 5},
+	{"pub", 34}, {"sleep", 16}, {"crash", 8}, {"crashfs", 6}, {"restart", 12}, {"cut", 10}, {"heal", 8}, {"stall", 5},
 }
 
 // c02Chain builds a failover chain: a follower lags behind while the leadership moves on, catches up
@@ -51,6 +51,11 @@ func c02Chain(r *simrt.Rand, p *hx.Program) {
 		if r.Pct(60) {
 			add("isolate") // the leader keeps accepting messages nobody replicates
 			pubs(1 + r.Intn(2))
+		}
+		if r.Pct(30) { // the leader dies inside a file operation of one of its next appends
+			p.Ops = append(p.Ops, hx.Op{K: "crashfs", A: []int64{0, 0, 0, int64(r.Intn(8))}})
+			pubs(1 + r.Intn(2))
+			p.Ops = append(p.Ops, hx.Op{K: "sleep", A: []int64{1}})
 		}
 		add("crashl")
 		p.Ops = append(p.Ops, hx.Op{K: "sleep", A: []int64{int64(3 + r.Intn(2))}}) // failover
